@@ -45,6 +45,18 @@ def impl_case(case):
                     except subprocess.TimeoutExpired:
                         runs.append({"rc": "timeout", "stderr": "", "stdout": ""})
                 r["runs"] = runs
+                # the same run again in place, over files left by an earlier run under the same temp name: first over files of the
+                # same sizes with other contents, then over longer files - what is written must be what a fresh directory gets
+                if case["seed"] % 3 == 0:
+                    rr = {}
+                    for tag, stale in (("same-size", lambda t: "".join(" " if c == "\n" else ("N" if c.isalpha() else "7" if c.isdigit() else c) for c in t)),
+                                       ("longer", lambda t: t + t[: max(3, len(t) // 5)])):
+                        for ext, good in ((".st", st), (".wc", wc), (".eq", eq)):
+                            open(tmp + ext, "w").write(stale(good))
+                        with contextlib.redirect_stdout(buf), contextlib.redirect_stderr(buf):
+                            SD.design(os.path.join(d, "doc"), path, os.path.join(d, "doc.mfe"), just_files=True, struct_orient=so, tempname=tmp, spuriousbinary=case["binary"])
+                        rr[tag] = (open(tmp + ".st").read(), open(tmp + ".wc").read(), open(tmp + ".eq").read()) == (st, wc, eq)
+                    r["rerun"] = rr
             except SystemExit:
                 r = {"outcome": "rejected", "error": "exit " + buf.getvalue()[-200:]}
             except Exception as e:
@@ -150,6 +162,10 @@ def run(tier, seed, build):
             sep = separators_ok(a["st"], d["lines"], so)
             if sep:
                 failures.append({"kind": "predicate", "key": "separators:" + lay, "summary": "blank separators / layout: " + sep, "replay": dict(rep, st=a["st"])})
+            for tag, same in a.get("rerun", {}).items():
+                dist["reruns_in_place"] = dist.get("reruns_in_place", 0) + 1
+                if not same:
+                    failures.append({"kind": "predicate", "key": "rerun:" + tag, "summary": "run again in place over %s files left under the same temp name, the designer input files differ from those a fresh directory gets (%s layout)" % (tag, lay), "replay": rep})
             for run_ in a.get("runs", []):
                 dist["binary_runs"] += 1
                 bad = run_["rc"] != 0 or "ERROR" in run_["stderr"] or "runtime error" in run_["stderr"] or "AddressSanitizer" in run_["stderr"]
